@@ -34,7 +34,10 @@ type c09Cfg struct {
 	// Pre: "" | "reconfigured" (an explicit ownership is set first and then replaced by
 	// this configuration's, nil meaning default again) | "restart" (the service first runs
 	// with another explicit ownership, is stopped, reconfigured and served again)
-	Pre       string   `json:"pre,omitempty"`
+	Pre string `json:"pre,omitempty"`
+	// Reapply: the same ownership (nil meaning default) is set again on the running
+	// service before ResetAll, as a configuration reload would
+	Reapply   bool     `json:"reapply,omitempty"`
 	Layout    string   `json:"layout"`
 	Upper     []string `json:"upper,omitempty"`
 	reconnect bool
@@ -123,6 +126,7 @@ func c09RandCfg(r *rand.Rand, idx int) c09Cfg {
 	}
 	cfg.Queue = []string{"<default>", "<default>", "", "workers"}[r.Intn(4)]
 	cfg.Pre = []string{"", "", "", "reconfigured", "restart"}[r.Intn(5)]
+	cfg.Reapply = r.Intn(3) == 0
 	return cfg
 }
 
@@ -332,6 +336,16 @@ func c09Check(c *core.Ctx, cfg c09Cfg) {
 		c.Violation("C09/reset-count:start:"+sig, fmt.Sprintf("%d system.reset events on start, want 1", len(resets)), desc)
 	} else {
 		checkReset("start", resets[0].Data)
+	}
+	if cfg.Reapply {
+		var rs, as []string
+		if !cfg.ResNil {
+			rs = cfg.Resources
+		}
+		if !cfg.AccNil {
+			as = cfg.Access
+		}
+		rg.S.SetOwnedResources(rs, as)
 	}
 	rg.S.ResetAll()
 	resets = vconn.OnSubject(rg.C.Log(), "system.reset")
